@@ -210,6 +210,10 @@ fn emit_enum(d: &Decl, ed: &EnumDescr, out: &mut String) {
             write!(out, "    {ev}").unwrap();
         }
         match v.shape {
+            0 if d.tags.contains(&"discriminants") => {
+                let k = ed.variants.iter().position(|x| x.name == v.name).unwrap();
+                writeln!(out, "    {} = {},", v.name, 5 * k + 1).unwrap()
+            }
             0 => writeln!(out, "    {},", v.name).unwrap(),
             1 => writeln!(
                 out,
